@@ -286,15 +286,46 @@ Fixpoint syncs_ok (dropped : list N) (k : N) (es : list wev) (fs : list frame) :
   | _ :: t => syncs_ok dropped k t fs
   end.
 
-(* map downlinks: a command number n stands for `update key (n mod 3) -> n`; per key the operations sent are, in
-   order, operations given, and once everything has been read the last one of every key has been sent *)
-Definition for_key (k : Z) (l : list Z) : list Z := filter (fun n => (n mod 3 =? k)%Z) l.
-Definition last_opt (l : list Z) : option Z := match List.rev l with [] => None | x :: _ => Some x end.
+(* map downlinks: a command number n given by a consumer stands for an operation on one of three keys: clear when
+   n mod 8 = 7, remove of key n mod 3 when n mod 8 = 6, otherwise update of key n mod 3 to n.  On the wire a clear is
+   read back as -100, a remove of key k as -(200 + k), an update as its value.  Per key, and across clears, the
+   operations sent are in order operations given; once everything has been read the remote's replica is the one all
+   the operations given produce *)
+Inductive mop := OClear | ORemove (k : Z) | OUpdate (k v : Z).
+Definition op_given (n : Z) : mop :=
+  if (n mod 8 =? 7)%Z then OClear else if (n mod 8 =? 6)%Z then ORemove (n mod 3) else OUpdate (n mod 3) n.
+Definition op_sent (z : Z) : mop :=
+  if (z =? -100)%Z then OClear else if (z <=? -200)%Z then ORemove (- z - 200) else OUpdate (z mod 3) z.
+Definition mop_eqb (a b : mop) : bool :=
+  match a, b with
+  | OClear, OClear => true
+  | ORemove k, ORemove k' => (k =? k')%Z
+  | OUpdate k v, OUpdate k' v' => (k =? k')%Z && (v =? v')%Z
+  | _, _ => false
+  end.
+Definition touches (k : Z) (o : mop) : bool :=
+  match o with OClear => true | ORemove k' | OUpdate k' _ => (k' =? k)%Z end.
+Fixpoint mop_subseq (a b : list mop) : bool :=
+  match a, b with
+  | [], _ => true
+  | _ :: _, [] => false
+  | x :: a', y :: b' => if mop_eqb x y then mop_subseq a' b' else mop_subseq a b'
+  end.
+(* the value of key k after the operations *)
+Definition key_after (k : Z) (ops : list mop) : option Z :=
+  fold_left (fun acc o => match o with
+                          | OClear => None
+                          | ORemove k' => if (k' =? k)%Z then None else acc
+                          | OUpdate k' v => if (k' =? k)%Z then Some v else acc
+                          end) ops None.
 Definition opt_eqb (a b : option Z) : bool :=
   match a, b with None, None => true | Some x, Some y => (x =? y)%Z | _, _ => false end.
+Definition last_opt (l : list Z) : option Z := match List.rev l with [] => None | x :: _ => Some x end.
 Definition per_key_ok (drained : bool) (sent given : list Z) : bool :=
-  forallb (fun k => is_subseq (for_key k sent) (for_key k given)
-                    && (negb drained || opt_eqb (last_opt (for_key k sent)) (last_opt (for_key k given))))
+  let s := map op_sent sent in
+  let g := map op_given given in
+  forallb (fun k => mop_subseq (filter (touches k) s) (filter (touches k) g)
+                    && (negb drained || opt_eqb (key_after k s) (key_after k g)))
           [0; 1; 2]%Z.
 
 Definition dl_oracle_ok (c : dcase) : bool :=
